@@ -13,13 +13,13 @@ import re
 import subprocess as sp
 
 from .. import fakevcs, pool, world
-from ..stats import Stats
+from ..stats import Stats, h64
 
 ID = "C12"
 LEVEL = "model_checking"
 MIN_OUTCOMES = 3
 MANIFEST = {
-    'text': 'All strings over the stated 15/17-symbol alphabet (quotes, backslash, $, backtick, %, newline, non-ASCII incl. a decomposed accent and U+2126 that change under Unicode normalisation, placeholders, OLD/NEW) up to length 3/4 in every slot (commit and tag message via TOML config, via setup.cfg and via CLI, file name, version-pattern literal) are run through the real `update` with a fake git/hg at the subprocess seam; the recorded argv vectors must equal those of the benign baseline run with only the one argument replaced by the expected text (hg: the --logfile content). Twelve whole messages in the shapes people use (`[ci/skip] ...`, `[skip ci]`, `chore(release): ...`, branch-listing look-alikes, multi-line bodies) run in repositories with an upstream, with only a remote URL and without any remote - the fake answers `git branch -vv` with the subject of the commit just made, as git does. Every string up to length 2 is additionally committed and tagged with a real git and read back from the objects.',
+    'text': 'All strings over the stated 15/17-symbol alphabet (quotes, backslash, $, backtick, %, newline, non-ASCII incl. a decomposed accent and U+2126 that change under Unicode normalisation, placeholders, OLD/NEW) up to length 3/4 in every slot (commit and tag message via TOML config, via setup.cfg and via CLI, file name, version-pattern literal) are run through the real `update` with a fake git/hg at the subprocess seam; the recorded argv vectors must equal those of the benign baseline run with only the one argument replaced by the expected text (hg: the --logfile content). Twelve whole messages in the shapes people use (`[ci/skip] ...`, `[skip ci]`, `chore(release): ...`, branch-listing look-alikes, multi-line bodies) run in repositories with an upstream, with only a remote URL and without any remote - the fake answers `git branch -vv` with the subject of the commit just made, as git does. Projects with 330 configured files / 60 paths of ~150 characters: the multiset of paths handed to `git add` equals the configured files however the commands are grouped. Every string up to length 2 is additionally committed and tagged with a real git and read back from the objects.',
     'note': 'templates with braces other than the documented placeholders are outside the statement; how real git/hg interpret a leading dash is not covered (argv-level property)',
     'technique': 'exhaustive enumeration of a bounded input alphabet on the real code, differential trace oracle at the subprocess seam + real git',
 }
@@ -255,6 +255,52 @@ def check_value(st, slot, syms, kind, baseline, failing_single=None, remote="ups
     return problem[0]
 
 
+def many_files(st):
+    """Projects with very many configured files (330 through one glob; 60 with paths of ~150 characters, > 8,000 bytes of arguments):
+    whatever way the staging commands are grouped, the paths handed to `git add` are exactly the configured files, each once."""
+    shapes = {
+        "330-files": [f"many/mod_{i:03d}/__init__.py" for i in range(330)],
+        "60-long-paths": [f"deep/{'segment_' * 14}{i:02d}/file_with_a_rather_long_name_{i:02d}.txt" for i in range(60)],
+    }
+    for name, paths in shapes.items():
+        glob_key = "many/*/__init__.py" if name == "330-files" else "deep/*/*.txt"
+        cfg = "\n".join([
+            "[bumpver]", 'current_version = "1.2.3"', 'version_pattern = "MAJOR.MINOR.PATCH"', "commit = true", "tag = true", "push = false",
+            "", "[bumpver.file_patterns]", '"bumpver.toml" = [\'current_version = "{version}"\']', f'"{glob_key}" = ["ver={{version}};"]', "",
+        ])
+        files = {"bumpver.toml": cfg.encode()}
+        for pth in paths:
+            files[pth] = b"ver=1.2.3;\n"
+        world.clear_dir(".")
+        world.write_tree(files)
+        os.mkdir(".git")
+        fake = fakevcs.install(fakevcs.FakeVCS("git", tags_all=["1.2.1"], status=[], remote=None))
+        try:
+            o = world.cli("update", "--patch", "--no-fetch")
+        finally:
+            fakevcs.uninstall()
+        st.evaluations += 1
+        st.transitions += 1
+        staged = []
+        for e in fake.effects():
+            if e["type"] == "cmd" and e["name"] == "add":
+                staged += [a for a in e["argv"][2:] if not a.startswith("-")]
+        want = sorted(paths + ["bumpver.toml"])
+        case = {"slot": "path", "symbols": [], "vcs": "git", "many_files": name}
+        st.observe((name, o.exit, o.crashed, len(staged), h64(sorted(staged))))
+        st.state("many", name)
+        st.nontriv("many", name)
+        if o.exit != 0 or sorted(staged) != want:
+            missing = sorted(set(want) - set(staged))
+            extra = sorted(set(staged) - set(want))
+            st.outcomes["violation"] += 1
+            st.violation(f"C12:path:staged-paths-differ-from-configured-paths:{name}", case,
+                         {"exit": o.exit, "crashed": o.crashed, "missing": missing[:5], "unexpected": extra[:5], "staged": len(staged), "configured": len(want)})
+        else:
+            st.validated += 1
+            st.outcomes["verbatim:path"] += 1
+
+
 def empty_template(st, slot, kind, baseline):
     """The EMPTY template, given explicitly: `--tag-message ''` / `tag_message = ""` mean a lightweight tag (README), `-c ''` an empty
     commit message argument; the configured template must not come back in its place."""
@@ -321,6 +367,7 @@ def explore(tier, seed):
     chunks.append(("pattern", "pattern-literal", None, 1, "hg"))
     for slot in ("commit-config", "commit-cli", "tag-config", "tag-cli"):
         chunks.append(("idioms", slot, None, 1, "git"))
+    chunks.append(("manyfiles", None, None, 1, "git"))
     for part in range(8):
         chunks.append(("realgit", None, part, 2, "git"))
     return pool.run_chunks(run_chunk, chunks)
@@ -336,6 +383,10 @@ def run_chunk(chunk):
     os.chdir(d)
     if mode == "realgit":
         real_git(st, first)
+        os.chdir("/")
+        return st
+    if mode == "manyfiles":
+        many_files(st)
         os.chdir("/")
         return st
     if mode == "idioms":
@@ -446,7 +497,9 @@ def replay(case, st):
     else:
         remote = case.get("remote", "upstream")
         o, fake, _p = run(case["slot"], BENIGN, case["vcs"], remote=remote)
-        if case.get("empty_template"):
+        if case.get("many_files"):
+            many_files(st)
+        elif case.get("empty_template"):
             empty_template(st, case["slot"], case["vcs"], normalised_effects(fake))
         else:
             check_value(st, case["slot"], case["symbols"], case["vcs"], normalised_effects(fake), ({"'"}, {"'", '"', " "}), remote=remote)
